@@ -26,6 +26,10 @@
     common/hmmer.py : HmmerHit.__post_init__/to_json/from_json, HmmerResults.to_json/from_json/refilter ;
         detection/{full,cluster}_hmmer regenerate_previous_results
     modules/tta/tta.py : TTAResults.to_json/from_json/new_feature_from_location ; tta.run_on_record
+    common/hmm_rule_parser/cluster_prediction.py : the gene-less early exit of detect_protoclusters_and_signatures;
+        hmm_detection get_ruleset (multipliers) and run_on_record (what is stored)
+    common/serialiser.py : AntismashResults.to_json / from_file (schema handling, modules per record);
+        main.read_data (taxon of the saved run)
     main.py : run_module (with the D52 repair: `is not None` instead of truthiness)
 
   Python floats are carried as exact decimals `mant·10^exp` (normalised); comparisons are exact.
@@ -646,6 +650,31 @@ def valid (ctx : Ctx) (x : HmmDet) : Bool :=
   x.recordId == ctx.recordId && x.rules.valid ctx && strictnessLevels.contains x.strictness
 end HmmDet
 
+/-! ### producing side of hmm_detection: get_ruleset multipliers, the gene-less early exit of
+    detect_protoclusters_and_signatures, run_on_record -/
+
+/-- `get_ruleset(options).multipliers`: the defaults unless the taxon is fungi -/
+def rulesetMultipliers (o : HmmOpts) : Dec × Dec :=
+  if o.fungi then (o.cutoffMult, o.neighMult) else (Dec.one, Dec.one)
+
+/-- `detect_protoclusters_and_signatures` on a record without CDS features:
+    `RuleDetectionResults({}, ruleset.tool, [], ruleset.multipliers)` -/
+def RuleRes.noGenes (tool : String) (mult : Dec × Dec) : RuleRes := ⟨tool, [], [], mult.1, mult.2⟩
+
+/-- `run_on_record(record, None, options)` given what detection returned:
+    `HMMDetectionResults(record.id, results, sorted(rule names), options.hmmdetection_strictness)`
+    (`o.ruleNames` is the sorted list of rule names) -/
+def HmmDet.runOnRecord (ctx : Ctx) (o : HmmOpts) (detected : RuleRes) : HmmDet :=
+  ⟨ctx.recordId, detected, o.ruleNames, o.strictness⟩
+
+/-- … on a record without genes -/
+def HmmDet.runNoGenes (ctx : Ctx) (o : HmmOpts) (tool : String) : HmmDet :=
+  HmmDet.runOnRecord ctx o (RuleRes.noGenes tool (rulesetMultipliers o))
+
+/-- `check_options`: multipliers positive, strictness known -/
+def HmmOpts.ok (o : HmmOpts) : Bool :=
+  strictnessLevels.contains o.strictness && Dec.lt Dec.zero o.cutoffMult && Dec.lt Dec.zero o.neighMult
+
 /-! ### sideloader -/
 
 abbrev QMap := List (String × List String)
@@ -1027,6 +1056,80 @@ def detect (recordId : String) (gc opt : Dec) (allCodons : List Loc) : TTA :=
 /-- Biopython locations always have at least one part -/
 def locsOk (l : List Loc) : Bool := l.all fun x => !x.parts.isEmpty
 end TTA
+
+/-! ### the results file: serialiser.AntismashResults.to_json / from_file, main.read_data -/
+
+/-- one entry of `records`: everything `dump_records` writes for the record itself (`fields`:
+    record_to_json, areas, original_id, gc_content — the record round trip is C10's subject) and the
+    per-module results -/
+structure FileRec where
+  fields : List (String × J)
+  modules : List (String × J)
+deriving Repr, Inhabited
+
+structure ResultsFile where
+  version : String
+  inputFile : String
+  records : List FileRec
+  timings : J
+  taxon : String
+deriving Repr, Inhabited
+
+namespace ResultsFile
+/-- `AntismashResults.SCHEMA_VERSION` -/
+def schemaVersion : Int := 4
+/-- `AntismashResults.COMPATIBLE_SCHEMAS[4]` -/
+def compatibleSchemas : List Int := [3, 2, 1]
+
+def recToJson (r : FileRec) : J := .obj (r.fields ++ [("modules", .obj r.modules)])
+/-- `to_json`: the file's own schema number is written under the key "schema" -/
+def toJson (f : ResultsFile) : J :=
+  .obj [("version", .str f.version), ("input_file", .str f.inputFile),
+        ("records", .arr (f.records.map recToJson)), ("timings", f.timings),
+        ("taxon", .str f.taxon), ("schema", .int schemaVersion)]
+
+/-- `schema = data.get("schema", 1)`; accepted iff `schema == current or schema in COMPATIBLE[current]`
+    (Python compares `True == 1`) -/
+def schemaAccepted (o : Option J) : Bool :=
+  match o with
+  | none => compatibleSchemas.contains 1
+  | some (.int n) => n == schemaVersion || compatibleSchemas.contains n
+  | some (.bool b) => compatibleSchemas.contains (if b then 1 else 0)
+  | some _ => false
+
+def eraseKey (k : String) : List (String × J) → List (String × J)
+  | [] => []
+  | (k', v) :: rest => if k' == k then eraseKey k rest else (k', v) :: eraseKey k rest
+
+/-- `rec["modules"]` of one record entry (the record part stays as it is) -/
+def recFromJson : J → Outcome FileRec
+  | .obj kv =>
+    match lookup "modules" kv with
+    | some (.obj m) => .reuse ⟨eraseKey "modules" kv, m⟩
+    | none => .refuse .key
+    | _ => .refuse .type
+  | _ => .refuse .type
+
+/-- `AntismashResults.from_file` after the text has been parsed; `timings` are not read back -/
+def fromJson : J → Outcome ResultsFile
+  | .obj kv =>
+    if !schemaAccepted (lookup "schema" kv) then .refuse .value
+    else do
+      let version ← reqStr kv "version"
+      let inputFile ← reqStr kv "input_file"
+      let taxon ← match lookup "taxon" kv with
+        | some (.str t) => Outcome.reuse t
+        | none => Outcome.reuse "bacteria"
+        | _ => Outcome.refuse .type
+      let rj ← reqArr kv "records"
+      let records ← mapO recFromJson rj
+      pure ⟨version, inputFile, records, .obj [], taxon⟩
+  | _ => .refuse .type
+
+/-- `main.read_data` on reuse: the taxon of the saved run replaces the option -/
+def readDataTaxon (_optionTaxon : String) (f : ResultsFile) : String := f.taxon
+def valid (f : ResultsFile) : Bool := f.records.all fun r => (lookup "modules" r.fields).isNone
+end ResultsFile
 
 /-! ### main.run_module -/
 
